@@ -23,6 +23,14 @@ async def _run(ops, talking, late_fail=False):
     sensor_full = b"\x00" + sensor_full[1 + 3 * sensor_full[0]:]
     mixer_params = PI.payload("responses/mixer_parameters.json", "1_mixer_detected")
     uid = PI.payload("responses/uid.json", "EM350P2_uid")
+    nan, t20 = 0x7FC00000, 0x41A00000
+
+    def sensor_with(mixers_present, thermostats_present):
+        """sensor data listing three mixer slots / three thermostat slots of which only the given ones are connected"""
+        val = [[], 0, 0, 0, [], [0, 0, 0, 0], [], 50, 0, nan, 0, nan, nan, 0, [[] for _ in range(6)], [],
+               [[0, [[0, (t20 if i in thermostats_present else nan), t20] for i in range(3)]]],
+               [[(t20 if i in mixers_present else nan), 30, 0, 1, 0] for i in range(3)]]
+        return bytes(model.call("enc_sensor", val))
     blockers = []
 
     def block_on(dev):
@@ -56,6 +64,8 @@ async def _run(ops, talking, late_fail=False):
                     reader.feed_data(G.enc(0xB9, 0x56, 0x45, 48, 5, uid))
                 elif name == "ecoster":
                     reader.feed_data(G.enc(0x40, 0x56, 0x51, 48, 5, b""))
+                elif isinstance(name, list) and name[0] == "sensor-with":
+                    reader.feed_data(G.enc(0x35, 0x56, 0x45, 48, 5, sensor_with(name[1], name[2])))
                 elif name == "bad":
                     reader.feed_data(G.enc(0xB6, 0x56, 0x45, 48, 5, b"\x00\x00\x05\x01"))
                 await PI.settle(12)
@@ -170,11 +180,15 @@ class C12(Prop):
             for _ in range(rng.randrange(0, 7)):
                 r = rng.random()
                 if r < 0.3:
-                    ops.append(["traffic", [rng.choice(["sensor", "mixer", "uid", "ecoster", "bad"]) for _ in range(rng.randrange(1, 4))]])
+                    ops.append(["traffic", [rng.choice(["sensor", "mixer", "uid", "ecoster", "bad",
+                                                        ["sensor-with", sorted(rng.sample(range(3), rng.randrange(0, 4))),
+                                                         sorted(rng.sample(range(3), rng.randrange(0, 4)))]])
+                                            for _ in range(rng.randrange(1, 4))]])
                 elif r < 0.45:
                     ops.append(["queue", rng.randrange(1, 6)])
                 elif r < 0.65:
-                    ops.append(["subtasks", [rng.choice(["device", "set", ["mixer", 0], ["mixer", 4], ["thermostat", 0]])
+                    ops.append(["subtasks", [rng.choice(["device", "set", ["mixer", 0], ["mixer", 1], ["mixer", 2], ["mixer", 4], ["thermostat", 0],
+                                                         ["thermostat", 1]])
                                              for _ in range(rng.randrange(1, 4))]])
                 elif r < 0.8:
                     back = rng.random() < 0.5
@@ -186,6 +200,16 @@ class C12(Prop):
                 cases.append({"kind": "prefix", "ops": ops[:cut], "talking": rng.random() < 0.3, "late_fail": rng.random() < 0.5})
         # close() issued in the very loop iteration in which one reconnect attempt hands over to the next
         # (the finished task is still registered when cancel_tasks() runs)
+        # sub-devices that come and go in the sensor data: tasks started on a mixer / thermostat that a later message no longer lists
+        for _ in range(10 if tier == "quick" else 200):
+            first = sorted(rng.sample(range(3), rng.randrange(1, 4)))
+            later = sorted(rng.sample(range(3), rng.randrange(0, 3)))
+            kind = rng.choice(["mixer", "thermostat"])
+            ops = [["connect", 0],
+                   ["traffic", [["sensor-with", first if kind == "mixer" else [], first if kind == "thermostat" else []]]],
+                   ["subtasks", [[kind, rng.choice(first)] for _ in range(rng.randrange(1, 3))]],
+                   ["traffic", [["sensor-with", later if kind == "mixer" else [], later if kind == "thermostat" else []]]]]
+            cases.append({"kind": "sub-devices-come-and-go", "ops": ops, "talking": False, "late_fail": False})
         from pyplumio.connection import RECONNECT_TIMEOUT
         for k in (1, 2, 3, 4):
             for lf in (True, False):
